@@ -31,7 +31,7 @@ SetC(c, rec, vs) == Step(Put(lc, c, rec), loopg, hs, pend, req, eng, vs)
 \* no callback of this engine may run once Run has returned
 Final(vs, what) == Check(~eng.runRet, "NoCallbackAfterReturn", what, vs)
 
-Next ==
+Step1 ==
     /\ More
     /\ LET e == Ev IN
        CASE e.ev = "Reset" -> Step(Empty, Empty, {}, Empty, Empty, NewE, viols)
@@ -119,4 +119,6 @@ Next ==
          [] e.ev \in {"RunStuck", "PeersTimeout", "OpenUnknown", "TrafficUnknown", "CloseUnknown"} ->
               Same(Check(FALSE, IF e.ev = "RunStuck" THEN "RunReturnsInBoundedTime" ELSE "NeverOnOtherConn", e.ev, viols))
          [] OTHER -> Same(viols)
+
+Next == Step1 \/ FinishWith(<<lc, loopg, hs, pend, req, eng>>)
 =============================================================================
